@@ -49,8 +49,14 @@ class WeightMixin(abc.ABC, Generic[_T]):
         """The coefficient to be multiplied must be in a `params` property."""
 
     def __mul__(self, coefficient: _T) -> "WeightMixin":
-        self.params["coefficient"] *= coefficient
-        return self
+        # NOTE: The operands must not be modified, otherwise expressions reusing an
+        # object (e.g. `x * 2 + x * 3`) yield wrong coefficients.
+        result = copy.copy(self)
+        result._params = {  # type: ignore[attr-defined]
+            **self.params,
+            "coefficient": self.params["coefficient"] * coefficient,
+        }
+        return result
 
     __rmul__ = __mul__
 
